@@ -220,3 +220,21 @@ Proof.
   split; [reflexivity|]. split; [vm_compute; discriminate|]. split; [reflexivity|].
   vm_compute. intros [H|[H|[H|[]]]]; discriminate.
 Qed.
+
+Lemma view_domb_sound : forall (V : Type) (m : amorph V), view_domb m = true ->
+    no_floating V m = true /\ valid_morphology V m = true /\ tree_parent (am_conn m) /\ root_index (am_conn m) = Some 0.
+Proof.
+  intros V m H. unfold view_domb in H.
+  apply andb_true_iff in H. destruct H as [H H4]. apply andb_true_iff in H. destruct H as [H H3].
+  apply andb_true_iff in H. destruct H as [H1 H2].
+  split; [exact H1|]. split; [exact H2|]. split; [now apply tree_parentb_sound|].
+  destruct (root_index (am_conn m)) as [r|]; [|discriminate]. apply Z.eqb_eq in H4. now subst.
+Qed.
+
+Lemma to_root_domb_sound : forall c indices, to_root_domb c indices = true ->
+    tree_parent c /\ forall i, In i indices -> 0 <= i < zlen c.
+Proof.
+  intros c indices H. unfold to_root_domb in H. apply andb_true_iff in H. destruct H as [H1 H2]. split.
+  - now apply tree_parentb_sound.
+  - intros i Hi. rewrite forallb_forall in H2. apply H2 in Hi. apply andb_true_iff in Hi. destruct Hi as [Ha Hb]. apply Z.leb_le in Ha. apply Z.ltb_lt in Hb. lia.
+Qed.
